@@ -32,6 +32,7 @@ def rt_opts_string():
     if do(F.INDIRECT_START_PTR): s += "i"
     if do(F.ZERO_LEN_INPUT_SUPPORT): s += "z"
     if do(F.USE_PACKED_ENUMS): s += "p"
+    if do(F.EOF_SUPPORT): s += "e"
     return s or "-"
 
 
